@@ -8,6 +8,7 @@ import (
 	"strconv"
 	"strings"
 	"sync"
+	"sync/atomic"
 
 	"go.opentelemetry.io/otel/sdk/metric/metricdata"
 
@@ -77,9 +78,11 @@ type c02Req struct {
 	prod     int
 	admitted bool
 	handed   int
-	finished bool
-	outcome  error // outcome the backend gives (decided when released)
-	postShut bool  // offered/admitted after shutdown was requested
+	finished bool   // the completion callback has run (the queue released the request's size)
+	answered bool   // the backend has answered (the outcome exists)
+	doneAt   string // lock-yield id at which the completing consumer is parked inside the completion callback
+	outcome  error  // outcome the backend gives (decided when released)
+	postShut bool   // offered/admitted after shutdown was requested
 }
 
 type c02Prod struct {
@@ -93,6 +96,7 @@ type c02Prod struct {
 	lastSite    string // last cond hook site seen for the outstanding offer ("" = never in cond)
 	passed      bool   // the goroutine has left that hook site (was not parked or has been released)
 	sizeAtOffer int64
+	lockAt      string // lock-yield id at which the producer is parked before taking the queue mutex ("" = not parked)
 }
 
 type c02Sim struct {
@@ -116,6 +120,14 @@ type c02Sim struct {
 	nextID         int
 	fifoUnreliable bool
 	soleWaiter     *c02Prod // the only producer blocked for space at the previous quiescence (nil if none or several)
+
+	// lock-site yields (sites inserted at build time by tools/lockinst.py, see lockYield)
+	lockMask  uint64
+	lockSeen  map[string]int // arrivals per site
+	lockNew   []string       // ids parked since the last observe
+	inSched   atomic.Bool    // the scheduler goroutine itself is calling into the queue: never park
+	quiet     bool           // quiet / abort phase: nothing parks any more
+	doneEvReq *c02Req        // request whose backend answer is this step's event
 }
 
 type c02Cfg struct {
@@ -129,6 +141,7 @@ type c02Cfg struct {
 	Steps      int    `json:"steps"`
 	MidShut    bool   `json:"shutdown_mid_run"`
 	Yields     bool   `json:"yield_hooks"`
+	LockYields bool   `json:"lock_site_yields"`
 }
 
 var errBackend = errors.New("sim backend failure")
@@ -153,6 +166,7 @@ func c02Config(tp *simkit.Tape) c02Cfg {
 	c.Steps = tp.Range(8, 40)
 	c.MidShut = tp.Chance(1, 6)
 	c.Yields = c.Block && tp.Chance(2, 3)
+	c.LockYields = tp.Chance(1, 2)
 	return c
 }
 
@@ -177,6 +191,8 @@ func (s *c02Sim) sizeOf(q *simReq) int64 {
 }
 
 func (s *c02Sim) gauge(name string) int64 {
+	s.inSched.Store(true)
+	defer s.inSched.Store(false)
 	m, err := s.tel.GetMetric(name)
 	if err != nil {
 		return -1 << 40
@@ -224,7 +240,15 @@ func runC02(r *simkit.Run) {
 		}
 		return v.(error)
 	}
+	if cfg.LockYields {
+		s.lockMask = uint64(tp.Draw(1<<16)) | uint64(tp.Draw(1<<16))<<16 | uint64(tp.Draw(1<<16))<<32 | uint64(tp.Draw(1<<16))<<48
+	}
+	s.lockSeen = map[string]int{}
 	queuebatch.VerifYield = func(ctx context.Context, site string) {
+		if strings.HasPrefix(site, "lock:") {
+			s.lockYield(ctx, site)
+			return
+		}
 		p, _ := ctx.Value(prodKeyT{}).(*c02Prod)
 		if p == nil {
 			return
@@ -254,9 +278,11 @@ func runC02(r *simkit.Run) {
 		panic(err)
 	}
 	s.qb = qb
+	s.inSched.Store(true)
 	if err := qb.Start(context.Background(), host); err != nil {
 		panic(err)
 	}
+	s.inSched.Store(false)
 	for i := 0; i < cfg.Producers; i++ {
 		s.prods = append(s.prods, &c02Prod{id: i})
 	}
@@ -284,7 +310,7 @@ func runC02(r *simkit.Run) {
 			// Cancellation is delivered only to a producer that sits in a select (waiting for space or for its
 			// result), never to one parked at a yield point: that would make two select cases ready at once, and Go's
 			// choice among ready cases is not under the tape's control (DESIGN.md section 8).
-			if p.req != nil && !p.cancelled && !p.task.Done() && (!p.blocked() || (p.lastSite == "cond.wait" && p.passed)) {
+			if p.req != nil && !p.cancelled && !p.task.Done() && p.lockAt == "" && (!p.blocked() || (p.lastSite == "cond.wait" && p.passed)) {
 				p := p
 				ch = append(ch, simkit.Choice{Name: fmt.Sprintf("cancel:p%d", p.id), W: 1, Fire: func() {
 					p.cancelled = true
@@ -295,7 +321,7 @@ func runC02(r *simkit.Run) {
 		}
 		for _, id := range s.yg.Parked() {
 			id := id
-			ch = append(ch, simkit.Choice{Name: "release:" + id, W: 2, Fire: func() { s.yg.Release(id, nil) }})
+			ch = append(ch, simkit.Choice{Name: "release:" + id, W: 2, Fire: func() { s.release(id) }})
 		}
 		if cfg.MidShut && !shutFired && step > cfg.Steps/2 {
 			ch = append(ch, simkit.Choice{Name: "shutdown", W: 1, Fire: func() {
@@ -312,6 +338,7 @@ func runC02(r *simkit.Run) {
 	}
 
 	// ---- quiet phase: no more offers, no more faults; everything parked is released until the system is idle.
+	s.quiet = true
 	for i := 0; i < 400 && !r.Failed(); i++ {
 		ys := s.yg.Parked()
 		es := s.gate.Parked()
@@ -320,12 +347,13 @@ func runC02(r *simkit.Run) {
 		}
 		if len(ys) > 0 {
 			id := ys[0]
-			r.Fire("quiet-release:"+id, func() { s.yg.Release(id, nil) })
+			r.Fire("quiet-release:"+id, func() { s.release(id) })
+			s.observe("quiet-release:" + id)
 		} else {
 			id := es[0]
 			r.Fire("quiet-done-ok:"+id, func() { s.complete(id, nil) })
+			s.observe("quiet")
 		}
-		s.observe("quiet")
 	}
 	if r.Failed() {
 		s.abort()
@@ -365,6 +393,7 @@ func (s *c02Sim) startShutdown() {
 
 // abort releases everything so that the bubble can end; used after a violation.
 func (s *c02Sim) abort() {
+	s.quiet = true
 	for _, p := range s.prods {
 		if p.cancel != nil {
 			p.cancel()
@@ -438,10 +467,73 @@ func (s *c02Sim) complete(gateID string, outcome error) {
 	if outcome != nil {
 		s.r.Count("fault.backend_error")
 	}
-	// The backend answers; the model releases the size when the completion callback has run (same step).
-	q.finished = true
-	s.size -= q.size
+	// The backend answers; the model releases the size when the completion callback has run: in this step, unless the
+	// completing consumer gets parked at a lock site inside the callback (observe decides).
+	q.answered = true
+	s.doneEvReq = q
 	s.gate.Release(gateID, outcome)
+}
+
+// release lets a goroutine parked at a yield continue. For a producer parked before it takes the queue mutex the
+// release is its admission step: the refusal clauses compare with the size reported now.
+func (s *c02Sim) release(id string) {
+	for _, p := range s.prods {
+		if p.req != nil && p.lockAt == id {
+			p.sizeAtOffer = s.gauge("otelcol_exporter_queue_size")
+		}
+	}
+	for _, q := range s.reqs {
+		if q.doneAt == id {
+			s.doneEvReq = q // its completion callback continues now
+			q.doneAt = ""
+		}
+	}
+	s.yg.Release(id, nil)
+}
+
+// lockYield is called (through the instrumented build) right before a goroutine takes a mutex of the queue package; it
+// holds none of them at that point. Whether the n-th arrival at a site parks comes from a mask drawn in advance (the
+// tape is never read off the scheduler goroutine). Consumers are interchangeable, so racing arrivals of two of them
+// at one site yield equivalent states.
+func (s *c02Sim) lockYield(ctx context.Context, site string) {
+	if s.inSched.Load() || !s.cfg.LockYields || s.quiet {
+		return
+	}
+	fn := site[len("lock:"):]
+	switch {
+	case strings.HasSuffix(fn, ".Size"), strings.HasSuffix(fn, ".Shutdown"), strings.HasSuffix(fn, ".Start"):
+		return
+	}
+	p, _ := ctx.Value(prodKeyT{}).(*c02Prod)
+	s.mu.Lock()
+	k := s.lockSeen[site]
+	s.lockSeen[site] = k + 1
+	h := uint64(14695981039346656037)
+	for i := 0; i < len(site); i++ {
+		h = (h ^ uint64(site[i])) * 1099511628211
+	}
+	park := s.lockMask>>((h+uint64(k))%64)&1 == 1
+	id := fmt.Sprintf("yield:%s#%d", site, k)
+	if p != nil {
+		id = fmt.Sprintf("yield:p%d:%s#%d", p.id, site, k)
+	}
+	if park {
+		s.lockNew = append(s.lockNew, id)
+		if p != nil {
+			p.lockAt = id
+		}
+	}
+	s.mu.Unlock()
+	if !park {
+		return
+	}
+	s.r.Count("fault.parked_before_lock/" + fn)
+	s.yg.Park(id)
+	if p != nil {
+		s.mu.Lock()
+		p.lockAt = ""
+		s.mu.Unlock()
+	}
 }
 
 func (s *c02Sim) req(id int) *c02Req {
@@ -468,10 +560,29 @@ func (s *c02Sim) observe(ev string) {
 	s.handoffs = nil
 	hooks := s.hooks
 	s.hooks = nil
+	lockNew := s.lockNew
+	s.lockNew = nil
 	s.mu.Unlock()
 	if len(hooks) > 0 {
 		sort.Strings(hooks)
 		r.Logf("  hooks %v", hooks)
+	}
+	if len(lockNew) > 0 {
+		sort.Strings(lockNew)
+		r.Logf("  parked before a lock: %v", lockNew)
+	}
+	// 0. the completion of this step's request: its callback has run unless its consumer is parked inside it
+	if q := s.doneEvReq; q != nil {
+		s.doneEvReq = nil
+		for _, id := range lockNew {
+			if strings.Contains(id, ".onDone#") && q.doneAt == "" {
+				q.doneAt = id
+			}
+		}
+		if q.doneAt == "" && !q.finished {
+			q.finished = true
+			s.size -= q.size
+		}
 	}
 
 	// 1. producers: returned / blocked / admitted
@@ -487,7 +598,15 @@ func (s *c02Sim) observe(ev string) {
 		if q == nil {
 			continue
 		}
-		isOfferStep := ev == fmt.Sprintf("offer:p%d", p.id)
+		// the step in which the producer's offer takes the queue mutex: the offer event, or the release of the
+		// lock-site yield at which it was parked before that
+		isOfferStep := ev == fmt.Sprintf("offer:p%d", p.id) || strings.Contains(ev, fmt.Sprintf("release:yield:p%d:lock:", p.id))
+		s.mu.Lock()
+		atLock := p.lockAt != ""
+		s.mu.Unlock()
+		if atLock && !p.task.Done() {
+			continue // parked before the queue mutex: neither admitted nor refused yet
+		}
 		if p.task.Done() {
 			err := p.task.Err
 			r.Logf("  p%d returned %s", p.id, simkit.ShortErr(err))
@@ -505,7 +624,7 @@ func (s *c02Sim) observe(ev string) {
 			case err == nil:
 				admit(q)
 				if cfg.Wait {
-					if !q.finished {
+					if !q.answered {
 						r.Failf("wait-result", "early-return", "wait_for_result producer p%d returned nil before its request r%03d was finished", p.id, q.id)
 					} else if q.outcome != nil {
 						r.Failf("wait-result", "wrong-outcome", "producer p%d got nil, its request r%03d finished with %v", p.id, q.id, q.outcome)
@@ -515,7 +634,7 @@ func (s *c02Sim) observe(ev string) {
 				if cfg.Block {
 					r.Failf("offer-result", "full-while-blocking", "block_on_overflow queue refused r%03d with queue-full", q.id)
 				}
-				if p.sizeAtOffer+q.size <= cfg.Cap {
+				if p.sizeAtOffer >= 0 && p.sizeAtOffer+q.size <= cfg.Cap {
 					r.Failf("refusal", "refused-with-space", "r%03d (size %d) refused although reported size %d + %d <= capacity %d", q.id, q.size, p.sizeAtOffer, q.size, cfg.Cap)
 				}
 				r.Count("probe.refused_full")
@@ -532,12 +651,12 @@ func (s *c02Sim) observe(ev string) {
 				} else {
 					r.Count("probe.cancel_while_blocked")
 				}
-			case cfg.Wait && q.finished && q.outcome != nil && errors.Is(err, q.outcome):
+			case cfg.Wait && q.answered && q.outcome != nil && errors.Is(err, q.outcome):
 				admit(q)
 			default:
 				r.Failf("offer-result", "unexpected-error", "producer p%d offering r%03d (size %d) got unexpected error %v", p.id, q.id, q.size, err)
 			}
-			if cfg.Wait && q.finished && err != nil && !errors.Is(err, context.Canceled) && q.outcome == nil {
+			if cfg.Wait && q.answered && err != nil && !errors.Is(err, context.Canceled) && q.outcome == nil {
 				r.Failf("wait-result", "wrong-outcome", "producer p%d got %v, its request r%03d finished successfully", p.id, err, q.id)
 			}
 			p.req = nil
@@ -551,7 +670,7 @@ func (s *c02Sim) observe(ev string) {
 				if !cfg.Block {
 					r.Failf("offer-result", "blocked-nonblocking", "producer p%d blocked on a non-blocking queue", p.id)
 				}
-				if p.sizeAtOffer+q.size <= cfg.Cap {
+				if p.sizeAtOffer >= 0 && p.sizeAtOffer+q.size <= cfg.Cap {
 					r.Failf("refusal", "blocked-with-space", "r%03d (size %d) blocked although reported size %d + %d <= capacity %d", q.id, q.size, p.sizeAtOffer, q.size, cfg.Cap)
 				}
 			}
@@ -607,7 +726,7 @@ func (s *c02Sim) observe(ev string) {
 		s.fifo = append(s.fifo, q.id)
 		r.Logf("  admitted r%03d", q.id)
 		p := s.prods[q.prod]
-		if ev == fmt.Sprintf("offer:p%d", p.id) && p.sizeAtOffer+q.size > cfg.Cap {
+		if (ev == fmt.Sprintf("offer:p%d", p.id) || strings.Contains(ev, fmt.Sprintf("release:yield:p%d:lock:", p.id))) && p.sizeAtOffer+q.size > cfg.Cap {
 			r.Failf("refusal", "accepted-over-capacity", "r%03d (size %d) accepted although reported size %d + %d > capacity %d", q.id, q.size, p.sizeAtOffer, q.size, cfg.Cap)
 		}
 	}
